@@ -14,7 +14,7 @@ def op (a : List String) : String :=
   match pairs (a.map String.toInt!) with
   | [] => "bad-op"
   | s0 :: rest =>
-    let skel : Nat → Nat := id
+    let skel : Settings Int → Nat := fun s => 1000 * s.method + s.numeric.toNat
     let place : Nat → Settings Int → (Nat × Nat × Int) := fun k s => (k, s.method, s.numeric)
     let m := rest.foldl (redistribute skel place) (build skel place s0)
     let last := rest.getLastD s0
